@@ -94,6 +94,8 @@ def render(steps):
             out.append("exit!" if s[1] else "exit")
         elif s[0] == "check":
             out.append(f"check({s[1]},{s[2]})")
+        elif s[0] == "recheck":
+            out.append(f"recheck(-{s[1] + 1})")
         else:
             out.append(s[0] + "()")
     return " ; ".join(out)
@@ -119,6 +121,8 @@ class Interp:
         self.max_depth = 0
         self.exc_exits = 0
         self.checks = []  # (feature, enabled?) for labels
+        self.mods = []  # [feature, loaded module] of the most recent checks (for "recheck")
+        self.rechecks = 0
 
     # -- observation of the anchored state
     def real_flag(self):
@@ -182,6 +186,13 @@ class Interp:
         elif kind == "check":
             self._check(s[1], s[2])
             tag = "check"
+        elif kind == "recheck":
+            # the same definition object checked again (s[1] = how far back) under the current setting
+            if self.mods:
+                feature, lm = self.mods[-1 - (s[1] % len(self.mods))]
+                self.rechecks += 1
+                self._judge(feature, lm, again=True)
+            tag = "recheck"
         else:
             raise harness.HarnessError(f"unknown step {s!r}")
         got = self.real_flag()
@@ -195,13 +206,23 @@ class Interp:
 
         with warnings.catch_warnings():
             warnings.simplefilter("ignore")
-            lm = runner.load_module(program(feature, k))  # fresh module: definitions cache results
-        try:
-            out = runner.check_def(lm.mod.main)
-        finally:
+            lm = runner.load_module(program(feature, k))  # a fresh module for every "check" step
+        self.mods.append([feature, lm])
+        if len(self.mods) > 3:
+            self.mods.pop(0)[1].dispose()
+        self._judge(feature, lm)
+
+    def dispose(self):
+        for _, lm in self.mods:
             lm.dispose()
+        self.mods = []
+
+    def _judge(self, feature, lm, again=False):
+        from vlib import runner
+
+        out = runner.check_def(lm.mod.main)
         self.checks.append((feature, self.flag))
-        state = "enabled" if self.flag else "disabled"
+        state = ("enabled" if self.flag else "disabled") + (" (definition checked before)" if again else "")
         if out.kind == "crash":
             self.fail(f"crash.{feature}.{runner.crash_bucket(out.exc)}",
                       f"check() of {feature} program while {state} crashed:\n{out.message[-1200:]}")
@@ -226,7 +247,7 @@ class Interp:
         return self.max_depth >= 2 and self.exc_exits >= 1
 
     def labels(self):
-        labs = [f"depth:{min(self.max_depth, 4)}", "exc_exit:" + ("yes" if self.exc_exits else "no"),
+        labs = ["recheck:" + ("yes" if self.rechecks else "no"), f"depth:{min(self.max_depth, 4)}", "exc_exit:" + ("yes" if self.exc_exits else "no"),
                 "nontrivial" if self.nontrivial() else "trivial"]
         for fam in sorted({FAMILY[f] + (":enabled" if en else ":disabled") for f, en in self.checks}):
             labs.append("check:" + fam)
@@ -244,6 +265,7 @@ def run_history(steps, reset=True):
     except Mismatch as m:
         return (m.bucket, m.detail)
     finally:
+        it.dispose()
         # leave the process in the baseline state whatever happened
         try:
             it.impl.EXPERIMENTAL_FEATURES_ENABLED = False
@@ -320,12 +342,30 @@ def make_machine(ctx):
         def check_control(self, k):
             self._do(["check", "control", k])
 
+        @precondition(lambda self: self.it.mods)
+        @rule(back=st.sampled_from([0, 0, 0, 1, 2]))
+        def recheck(self, back):
+            self._do(["recheck", back])
+
+        @precondition(lambda self: self.it.mods)
+        @rule(which=st.sampled_from(["enable", "disable"]), how=st.sampled_from(["call", "open", "close"]))
+        def flip_then_recheck(self, which, how):
+            """the setting changes and the definition checked last is checked again straight away"""
+            if how == "call":
+                self._do([which])
+            elif how == "open" or not self.it.cms:
+                self._do(["open", which])
+            else:
+                self._do(["close", False])
+            self._do(["recheck", 0])
+
         def teardown(self):
             it = self.it
             if not self.failed and it.history:
                 ctx.case(it.history, it.nontrivial(), labels=it.labels())
                 ctx.sample(("nontrivial" if it.nontrivial() else "trivial") + f"/depth{min(it.max_depth, 4)}",
                            {"history": render(it.history), "final_flag": it.flag})
+            it.dispose()
             it.impl.EXPERIMENTAL_FEATURES_ENABLED = False  # next machine starts from the baseline
 
     return GateMachine
@@ -369,7 +409,8 @@ SPEC = harness.Spec(
     rule=("Hypothesis RuleBasedStateMachine over the public gate API: plain enable()/disable() calls, `with enable:` / "
           "`with disable:` blocks opened (construct + __enter__) and closed LIFO (__exit__ with None or with a raised "
           "exception + traceback), and check() of a freshly loaded module using one gated feature (4 list shapes, 2 function "
-          "tensor positions, 2 closure shapes, 3 modifiers) or the ungated control program; plus one fresh-process case per "
+          "tensor positions, 2 closure shapes, 3 modifiers) or the ungated control program, and re-checks of one of the last 3 "
+          "definition objects under the then current setting (also straight after the setting changed); plus one fresh-process case per "
           "shard checking the default (closed) gate. Each machine run = one history = one case. non-trivial = history "
           "whose block nesting depth reaches >= 2 and that has >= 1 exceptional exit; distinct = distinct step list"),
     assumptions=[
